@@ -110,6 +110,77 @@ end
 
 def rProg (p : List Stmt) : List RTok := rStmts p ++ [kw .EOF]
 
+/-! ## the ladder as a well-formedness predicate on trees
+
+Positions in the grammar are numbered: 0 = `assignment`, `j + 1` = the ladder level `j` of
+`Expect.ladder` (`logicalOR` … `power`), `nLevels + 1` = `unary`, `nLevels + 2` = `call` / `primary`.
+`fits k e` says: the tree `e` may stand, unparenthesised, where the grammar expects position `k`. -/
+
+abbrev nLev : Nat := Parser.nLevels
+
+/-- the ladder level an operator belongs to -/
+def levelOf (op : TT) : Option Nat := Expect.ladder.findIdx? (fun l => l.ops.contains op)
+
+mutual
+def fits : Nat → Expr → Bool
+  | k, .assign _ _ v _ => k == 0 && fits 0 v
+  | k, .arrayAssign a i v _ => k == 0 && fits (nLev + 2) a && fits 0 i && fits 0 v
+  | k, .propAssign o _ v _ => k == 0 && fits (nLev + 2) o && fits 0 v
+  | k, .binary l op _ r =>
+    (match levelOf op with
+     | some j => decide (k ≤ j + 1) && (Parser.levelNode j == .binary) && fits (j + 1) l && fits (j + 2) r
+     | none => false)
+  | k, .logical l op r =>
+    (match levelOf op with
+     | some j => decide (k ≤ j + 1) && (Parser.levelNode j == .logical) && fits (j + 1) l && fits (j + 2) r
+     | none => false)
+  | k, .unary op _ e => decide (k ≤ nLev + 1) && Expect.unaryOps.contains op && fits (nLev + 1) e
+  | k, .literal _ _ => decide (k ≤ nLev + 2)
+  | k, .ident _ _ => decide (k ≤ nLev + 2)
+  | k, .grouping e _ => decide (k ≤ nLev + 2) && fits 0 e
+  | k, .call c _ args => decide (k ≤ nLev + 2) && fits (nLev + 2) c && fitsAll args
+  | k, .arrayLit es => decide (k ≤ nLev + 2) && fitsAll es
+  | k, .objectLit ps _ => decide (k ≤ nLev + 2) && fitsProps ps
+  | k, .arrayAccess a i _ => decide (k ≤ nLev + 2) && fits (nLev + 2) a && fits 0 i
+  | k, .propAccess o _ _ => decide (k ≤ nLev + 2) && fits (nLev + 2) o
+def fitsAll : List Expr → Bool
+  | [] => true
+  | e :: es => fits 0 e && fitsAll es
+def fitsProps : List (Name × Expr) → Bool
+  | [] => true
+  | (_, e) :: ps => fits 0 e && fitsProps ps
+end
+
+/-! ## the dangling else as a well-formedness predicate on statement trees -/
+
+mutual
+/-- the statement ends in an `if` without `else`: an `else` token right after it would belong to that `if` -/
+def openIf : Stmt → Bool
+  | .ifS _ _ none => true
+  | .ifS _ _ (some el) => openIf el
+  | .whileS _ b => openIf b
+  | .forS _ _ _ b => openIf b
+  | _ => false
+end
+
+mutual
+/-- everywhere in the tree, the then-branch of an `if … else` is closed (so the `else` could not have
+    belonged to an inner `if`) -/
+def elseOk : Stmt → Bool
+  | .ifS _ th el => elseOk th && elseOkElse th el
+  | .whileS _ b => elseOk b
+  | .forS _ _ _ b => elseOk b
+  | .block ss => elseOkAll ss
+  | .funS _ _ body => elseOkAll body
+  | _ => true
+def elseOkAll : List Stmt → Bool
+  | [] => true
+  | s :: ss => elseOk s && elseOkAll ss
+def elseOkElse (th : Stmt) : Option Stmt → Bool
+  | none => true
+  | some el => !openIf th && elseOk el
+end
+
 /-- literal tokens carry a literal of their kind (true of every token the lexer produces) -/
 def TokWf (t : Token) : Prop :=
   (t.tt = .NUMBER → ∃ x, t.lit = .num x) ∧ (t.tt = .STRING → ∃ s, t.lit = .str s)
